@@ -645,7 +645,7 @@ func c17ScheduleWorkload(r *verifkit.Run, repeats int, pre bool) {
 	diagnosed := 0
 	for k, i := range stalled {
 		desc := verifkit.JSON(scripts[i])
-		if k >= 3 || pre == false && k >= 1 {
+		if k >= 10 {
 			r.Inconclusive("script stalled (not diagnosed): " + desc)
 			continue
 		}
